@@ -20,7 +20,10 @@ RULE = (
     "differ between dimensions (MLE, EW lsq/wlsq). Oracles: fit(data) vs fit(row-permuted data) on fresh identical models, also after a preceding "
     "fit (re-fit history); data_intervals are exactly the rows the slicer selects and lie inside the reported boundaries; every per-interval "
     "estimate equals a stand-alone fit of a copy of the template with that dimension's method/weights; dependence parameters equal a fresh "
-    "dependence function fitted to (conditioning_values, estimates). Non-trivial: >= 3 intervals, data not sorted by the conditioning column."
+    "dependence function fitted to (conditioning_values, estimates). Part refit_newdata: a model with the OMAE2020 V-Hs structure (alpha "
+    "dependence function taking the beta dependence function as parameter, either declaration order) is fitted to one generated data set and "
+    "re-fitted to another: per-interval estimates must equal those of a model fitted once to the second data set and both dependence functions "
+    "must fit the *current* (reference, estimate) pairs about as well as that model's. Non-trivial: >= 3 intervals, data not sorted by the conditioning column."
 )
 ASSUMPTIONS = [
     "optimiser noise: marginal / per-interval MLE of permuted data compared at rtol 1e-4 (closed-form families 1e-9), dependence parameters at rtol 1e-4 with objective-equality fallback",
@@ -326,11 +329,127 @@ def strat_fit(draw, tier):
     )
 
 
+# ------------------------------------------------------------------- part refit_newdata
+def _chain_model(case):
+    """V ~ Weibull, Hs | V ~ exponentiated Weibull (f_delta) with alpha = alpha3(d_of_x = beta function) and
+    beta = logistics4 - the structure of get_OMAE2020_V_Hs - or two independent dependence functions"""
+    from virocon import GlobalHierarchicalModel, DependenceFunction, WidthOfIntervalSlicer
+
+    beta_dep = DependenceFunction(depshapes.python_callable("logistics4"), [(0, None), (0, None), (None, 0), (0, None)])
+    beta_dep.parameters = dict(a=1.0, b=1.0, c=-1.0, d=6.0)
+    if case["chained"]:
+        alpha_dep = DependenceFunction(depshapes.python_callable("alpha3"), [(0, None), (0, None), (None, None)], d_of_x=beta_dep)
+    else:
+        alpha_dep = DependenceFunction(depshapes.python_callable("power3"), [(0, None), (0, None), (None, None)])
+    pars = {"alpha": alpha_dep, "beta": beta_dep} if case["alpha_first"] else {"beta": beta_dep, "alpha": alpha_dep}
+    descs = [
+        {"distribution": build.dist("Weibull"), "intervals": WidthOfIntervalSlicer(case["width"], min_n_points=30)},
+        {"distribution": build.dist("ExponentiatedWeibull", None, dict(delta=5.0)), "conditional_on": 0, "parameters": pars},
+    ]
+    return GlobalHierarchicalModel(descs)
+
+
+def _chain_data(n, seed, k):
+    rng = np.random.default_rng(seed)
+    v = 9.0 * rng.weibull(2.1, n) + 0.2
+    beta = 0.8 + k["b1"] / (1 + np.exp(-0.5 * (v - k["d"])))
+    alpha = (k["a0"] + k["a1"] * v ** k["c"]) / 2.0445 ** (1 / beta)
+    u = rng.uniform(1e-9, 1 - 1e-9, n)
+    hs = alpha * (-np.log1p(-u ** (1 / 5.0))) ** (1 / beta)
+    return np.c_[v, hs]
+
+
+def check_refit_newdata(case, ctx):
+    ctx.cls(f"chained={case['chained']}", f"alpha_first={case['alpha_first']}")
+    ctx.nontrivial(case["chained"] and case["alpha_first"])
+    d1 = _chain_data(case["n1"], case["seed1"], case["k1"])
+    d2 = _chain_data(case["n2"], case["seed2"], case["k2"])
+    fd = [None, {"method": "wlsq", "weights": "quadratic"}] if case["wlsq"] else None
+
+    def fit_desc_():
+        return None if fd is None else [None if f is None else dict(f) for f in fd]
+
+    M = _chain_model(case)
+    Fm = _chain_model(case)
+    import warnings as _w
+
+    try:
+        with _w.catch_warnings():
+            _w.simplefilter("ignore")
+            M.fit(d1, fit_desc_())
+            P1 = {p_: dict(M.distributions[1].conditional_parameters[p_].parameters) for p_ in ("alpha", "beta")}
+            M.fit(d2, fit_desc_())
+            Fm.fit(d2, fit_desc_())
+    except RuntimeError:
+        ctx.rejected_by_contract()
+        return
+    dm, df_ = M.distributions[1], Fm.distributions[1]
+    cv = np.asarray(dm.conditioning_values, dtype=float)
+    if not np.allclose(cv, np.asarray(df_.conditioning_values, dtype=float), rtol=1e-12):
+        ctx.violation("refit:conditioning_values", f"{cv.tolist()} vs fresh {np.asarray(df_.conditioning_values).tolist()}")
+        return
+    for t, (pa, pb) in enumerate(zip(dm.parameters_per_interval, df_.parameters_per_interval)):
+        for k_ in pa:
+            if not abs(float(pa[k_]) - float(pb[k_])) <= 1e-9 * max(abs(float(pb[k_])), 1e-3):
+                ctx.violation("refit:interval_estimate", f"interval {t} {k_}: re-fitted {pa[k_]!r} vs first fit on the same data {pb[k_]!r}")
+                return
+    tag = f"chained={case['chained']} alpha_first={case['alpha_first']} n=({case['n1']},{case['n2']}) wlsq={case['wlsq']}"
+    # reference: fresh dependence functions that start where the model's functions stood after the first fit
+    # (re-fits are warm starts), fitted in dependency order to the *current* (reference, estimate) pairs
+    from virocon import DependenceFunction
+
+    ref_beta = DependenceFunction(depshapes.python_callable("logistics4"), [(0, None), (0, None), (None, 0), (0, None)])
+    ref_beta.parameters = dict(P1["beta"])
+    if case["chained"]:
+        ref_alpha = DependenceFunction(depshapes.python_callable("alpha3"), [(0, None), (0, None), (None, None)], d_of_x=ref_beta)
+    else:
+        ref_alpha = DependenceFunction(depshapes.python_callable("power3"), [(0, None), (0, None), (None, None)])
+    ref_alpha.parameters = dict(P1["alpha"])
+    est = {p_: np.array([q[p_] for q in dm.parameters_per_interval], dtype=float) for p_ in ("alpha", "beta")}
+    try:
+        with _w.catch_warnings():
+            _w.simplefilter("ignore")
+            ref_beta.fit(cv, est["beta"])
+            ref_alpha.fit(cv, est["alpha"])
+    except RuntimeError:
+        ctx.rejected_by_contract()
+        return
+    for pname, ref in (("beta", ref_beta), ("alpha", ref_alpha)):
+        got = np.array(list(dm.conditional_parameters[pname].parameters.values()), dtype=float)
+        exp = np.array(list(ref.parameters.values()), dtype=float)
+        if np.allclose(got, exp, rtol=1e-4, atol=1e-7):
+            continue
+        fM = np.asarray(dm.conditional_parameters[pname](cv), dtype=float)
+        fR = np.asarray(ref(cv), dtype=float)
+        JM, JR = float(np.sum((fM - est[pname]) ** 2)), float(np.sum((fR - est[pname]) ** 2))
+        if abs(JM - JR) <= 1e-4 * max(JM, JR) + 1e-8 * float(np.sum(est[pname] ** 2)):
+            continue
+        kind = "chained_dependent_first" if (case["chained"] and case["alpha_first"] and pname == "alpha") else "plain"
+        ctx.violation(
+            f"refit:dependence_not_fitted_to_current_pairs:{pname}:{kind}",
+            f"{tag}: after the re-fit the {pname} dependence function has {got.tolist()} (J={JM!r} on the current pairs); fitting it to the current (reference, estimate) pairs from its state after the first fit gives {exp.tolist()} (J={JR!r})",
+        )
+        return
+
+
+@st.composite
+def strat_refit(draw, tier):
+    def coef():
+        return dict(a0=draw(st.floats(0.2, 0.6)), a1=draw(st.floats(0.05, 0.25)), c=draw(st.floats(0.9, 1.5)), b1=draw(st.floats(0.6, 1.6)), d=draw(st.floats(5.0, 11.0)))
+
+    return dict(
+        chained=draw(st.sampled_from([True, True, False])), alpha_first=draw(st.sampled_from([True, True, False])),
+        n1=draw(st.integers(1500, 4000)), n2=draw(st.integers(1500, 4000)), seed1=draw(st.integers(0, 2**31 - 1)), seed2=draw(st.integers(0, 2**31 - 1)),
+        k1=coef(), k2=coef(), width=draw(st.sampled_from([2.0, 2.5, 3.0])), wlsq=draw(st.booleans()),
+    )
+
+
 RATE_LIMITS = [
     ("order_dependent:dependence", "fit/n_dim=2", 0.03, 100),
     ("order_dependent_outcome", "fit/n_dim=2", 0.03, 100),
 ]
 
 PARTS = [
+    Part("refit_newdata", check_refit_newdata, lambda tier: strat_refit(tier), quick=96, thorough=2000, shrink=False, min_per_shard=2),
     Part("fit", check_fit, lambda tier: strat_fit(tier), quick=250, thorough=5000, shrink=False, min_per_shard=4, min_nontrivial_frac=0.2),
 ]
